@@ -17,6 +17,11 @@ EXPLANATION = ("certificate::parse = parse_unverified then verify()? (verificati
 ASSUMPTIONS = ["DER parsing by x509-parser/yasna, signature primitives in ring/libp2p_identity", "byte-mutation behaviour is not executed"]
 T = "libp2p_tls"
 
+SELFTEST = [
+    {"mutation": "verify_signature: `.map_err(..)?` -> `.ok()`", "caught_by": "selfsig/Ok only on the success edge of the signature verification"},
+    {"mutation": "public_key: scheme mismatch test disabled", "caught_by": "selfsig/public_key yields a key only for the certificate's own signature scheme"},
+    {"neutral": "neutral/sec/05 (`?` -> match/return Err); renamed `libp2p_extension`; hoisted `let currently_valid = ..`", "silent": True},
+]
 
 def oks(b):
     return S.ok_sites(b)
@@ -194,13 +199,13 @@ def check(ctx):
         ok = kk is not None and ss is not None and ok_of_call(kk, r"PublicKey::try_decode_protobuf$") and S.has_call(kk, r"yasna::decode_der$") and S.has_call(ss, r"yasna::decode_der$")
         ctx.ob("extensions", "stored key is the decoded host key, signature from the same SignedKey", ok, s.loc(), S.nrender(e)[:200])
     reach_next = lambda bi: any(n.bb in u.reachable([bi]) for n in nx)
-    dupe = [(b, t) for (b, t) in present if reach_next(b)]
+    dupe = [(b, t) for (b, t) in S.outcome_edges(u, lambda x: S.is_local(x, sl), close=False)[0] if reach_next(b)]
     ctx.ob("extensions", "floor:duplicate test inside the extension loop", len(dupe) >= 1, nontrivial=False, msg=str(sorted(dupe)))
     for _, t in dupe:
         rr = u.reachable([t])
         errs = [x for x in S.ret_sites(u, S.is_err_agg) if x.bb in rr]
         ctx.ob("extensions", "duplicate libp2p extension => Err", len(errs) >= 1 and not (set(x.bb for x in uo) & u.reachable([t], blocked_nodes=[e.bb for e in errs])), msg="second occurrence of the extension is rejected")
-    crit, _ = S.truth_edges(u, lambda c: c[0] == "field" and c[2] == "critical")
+    crit, _ = S.truth_edges(u, lambda c: c[0] == "field" and c[2] == "critical", close=False)
     ctx.ob("extensions", "floor:critical edge", len(crit) == 1, nontrivial=False, msg=str(crit))
     for _, t in crit:
         rr = u.reachable([t])
